@@ -24,6 +24,7 @@
 #include <malloc.h>
 #include "testkeys/RSA/2048_RSA_KEY.h"
 #include "testkeys/EC/256_EC_KEY.h"
+#include "testkeys/RSA/1024_RSA_KEY.h"
 
 /* ------------------------------------------------------- deterministic heap content
  * The name matcher works on heap copies of the certificate names.  To make a read of
@@ -31,6 +32,7 @@
  * same in the enumeration run and in every replay, each malloc'ed block of this process is
  * pre-filled with 0x5A up to its usable size.  Same allocator (glibc), same addresses - only the
  * initial content of fresh blocks is pinned.  calloc is untouched. */
+#if !defined(MXV_VARIANT_asan) && !defined(MXV_VARIANT_tsan)   /* the sanitizers bring their own allocator */
 extern void *__libc_malloc(size_t);
 extern void *__libc_calloc(size_t, size_t);
 extern void *__libc_realloc(void *, size_t);
@@ -51,16 +53,17 @@ void *realloc(void *o, size_t n)
     return p;
 }
 void free(void *p) { __libc_free(p); }
+#endif
 
 /* ------------------------------------------------------------------ globals */
 static int thorough;
 static int g_dump;                       /* replay: dump certificates / names to stderr */
-static EVP_PKEY *g_key[2];               /* 0 = RSA-2048, 1 = P-256 */
-static const char keyletter[2] = { 'r', 'p' };
+static EVP_PKEY *g_key[3];               /* 0 = RSA-2048, 1 = P-256, 2 = RSA-1024 */
+static const char keyletter[3] = { 'r', 'p', 's' };
 static int refused[NEXP];                /* psX509ValidateGeneralName(E) < 0 */
 
 typedef struct {
-    long certs, certs_refused, evals, definite, dontcare, accepts, viol_a, viol_b, refused_names, groups;
+    long certs, certs_refused, evals, libcalls, definite, dontcare, accepts, viol_a, viol_b, refused_names, groups;
 } counters_t;
 static counters_t *CT;
 #define CT_ADD(f, v) __atomic_fetch_add(&CT->f, (long) (v), __ATOMIC_RELAXED)
@@ -228,7 +231,9 @@ static int build_der(const names_t *N, int key, unsigned char **der)
     return len;
 }
 
-typedef struct { psX509Cert_t *sc, *ic; int parsed; uint32 ff_s, ff_i; int internal; } mcert_t;
+/* sig: copy of the subject object's signature octets - psVerifySig decrypts an RSA signature IN PLACE
+ * (pubkey_verify.c casts the const away), so a certificate object validates only once unless restored */
+typedef struct { psX509Cert_t *sc, *ic; int parsed; uint32 ff_s, ff_i; int internal; unsigned char sig[512]; int siglen; } mcert_t;
 
 static void mcert_free(mcert_t *c)
 {
@@ -255,6 +260,8 @@ static void mcert_make(mcert_t *c, const names_t *N, int key)
         c->parsed = 1;
         c->ff_s = c->sc->authFailFlags;
         c->ff_i = c->ic->authFailFlags;
+        c->siglen = c->sc->signatureLen <= sizeof(c->sig) ? (int) c->sc->signatureLen : 0;
+        memcpy(c->sig, c->sc->signature, (size_t) c->siglen);
     }
     else
     {
@@ -275,6 +282,7 @@ static int ms_eval(mcert_t *c, const char *E, int type, unsigned mflags, unsigne
     o.flags = flags;
     c->sc->authStatus = 0; c->sc->authFailFlags = c->ff_s;
     c->ic->authStatus = 0; c->ic->authFailFlags = c->ff_i;
+    memcpy(c->sc->signature, c->sig, (size_t) c->siglen);
     rc = matrixValidateCertsExt(NULL, c->sc, c->ic, (char *) E, &found, NULL, NULL, &o);
     if (prc) *prc = rc;
     if (rc == PS_SUCCESS && c->sc->authStatus == PS_CERT_AUTH_PASS && c->sc->authFailFlags == c->ff_s) return 1;
@@ -359,9 +367,14 @@ static int judge_b(const group_t *g, int e, int ci, const int *parsed, const sig
         snprintf(r->outcome, sizeof(r->outcome), "order-independent");
         return 0;
     }
+    /* position-sensitive mechanisms first (the loose-matching defects are position independent by themselves) */
     if (pdiff)
     {
         snprintf(cls, sizeof(cls), "cert-refusal-depends-on-entry-order");
+    }
+    else if (has_trailing_nul_and_other_string(&N0))
+    {
+        snprintf(cls, sizeof(cls), "san-entry-after-trailing-nul-entry");
     }
     else
     {
@@ -375,11 +388,7 @@ static int judge_b(const group_t *g, int e, int ci, const int *parsed, const sig
             if (v[k]) diag_false_accept(&Nk, EXP[e].s, ci, cls, sizeof(cls));
             else diag_false_reject(&Nk, EXP[e].s, ci, 1, wit, cls, sizeof(cls));
         }
-        if (!cls[0])
-        {
-            if (has_trailing_nul_and_other_string(&N0)) snprintf(cls, sizeof(cls), "san-entry-after-trailing-nul-entry");
-            else snprintf(cls, sizeof(cls), "unexplained|t=%s", COMBO[ci].name);
-        }
+        if (!cls[0]) snprintf(cls, sizeof(cls), "unexplained|t=%s", family(ci));
     }
     r->violation = 1;
     snprintf(r->key, sizeof(r->key), "order-dependent|%s|%s", cls, reach(e));
@@ -415,7 +424,7 @@ typedef struct {
 static int run_group_core(const group_t *g, gres_t *G, int record, int e_only, int ci_only, int k_only, mx_result_t *last)
 {
     int np = nperms(g->n), k, e, ci, nviol = 0, anyacc = 0, anyparsed = 0, anyrefused = 0;
-    long evals = 0, definite = 0, dontcare = 0;
+    long evals = 0, libcalls = 0, definite = 0, dontcare = 0;
     mx_result_t r;
     names_t N;
 
@@ -445,7 +454,7 @@ static int run_group_core(const group_t *g, gres_t *G, int record, int e_only, i
                 fprintf(stderr, "  parsed CN: %s\n", c.sc->subject.commonName ? c.sc->subject.commonName : "(none)");
                 for (n = c.sc->extensions.san; n; n = n->next)
                 {
-                    fprintf(stderr, "  parsed SAN entry id=%d dataLen=%d\n", (int) n->id, (int) n->dataLen);
+                    fprintf(stderr, "  parsed SAN entry id=%d dataLen=%d (heap block of %d usable bytes)\n", (int) n->id, (int) n->dataLen, (int) malloc_usable_size(n->data));
                 }
             }
         }
@@ -457,12 +466,15 @@ static int run_group_core(const group_t *g, gres_t *G, int record, int e_only, i
                 int v = 0, def = 0;
                 int32 rc = 0;
                 if (ci_only >= 0 && ci != ci_only) continue;
+                if (g->key == 1 && COMBO[ci].mflags != 0) continue;          /* P-256 slice: mFlags = 0 only */
                 if (c.parsed)
                 {
                     v = ms_eval(&c, EXP[e].s, COMBO[ci].type, COMBO[ci].mflags, 0, &rc);
+                    libcalls++;
                     if (v < 0)
                     {
                         internal_result(&r, &N, g->key, e, ci, "chain-validation-failed-for-another-reason", rc);
+                        if (g_dump) fprintf(stderr, "  INTERNAL e=%d ci=%d rc=%d authStatus=%d flags=0x%x\n", e, ci, (int) rc, (int) c.sc->authStatus, (unsigned) c.sc->authFailFlags);
                         if (record) mx_record(&r);
                         if (last) *last = r;
                         v = 0;
@@ -527,7 +539,7 @@ static int run_group_core(const group_t *g, gres_t *G, int record, int e_only, i
         mkdesc(r.desc, sizeof(r.desc), &N, g->key, -1, -1, 1);
         for (i = 0; i < g->n; i++) kinds[i] = kind_letter[POOL[g->idx[i]].kind];
         kinds[g->n] = 0;
-        snprintf(r.outcome, sizeof(r.outcome), "%ssan=%s;cn=%d;%s;%s", g->key ? "p256:" : "", g->n ? kinds : "-", g->cn != 0,
+        snprintf(r.outcome, sizeof(r.outcome), "%ssan=%s;cn=%d;%s;%s", g->key == 1 ? "p256:" : "", g->n ? kinds : "-", g->cn != 0,
             anyparsed && anyrefused ? "refusal-depends-on-order" : anyparsed ? "parsed" : "cert-refused-by-parser", anyacc ? "some-accept" : "no-accept");
         r.transitions = (uint32_t) (evals > 0 ? evals : 1);
         r.nontrivial = definite > 0;
@@ -537,6 +549,7 @@ static int run_group_core(const group_t *g, gres_t *G, int record, int e_only, i
         CT_ADD(certs, np);
         for (k = 0; k < np; k++) CT_ADD(certs_refused, !G->parsed[k]);
         CT_ADD(evals, evals);
+        CT_ADD(libcalls, libcalls);
         CT_ADD(definite, definite);
         CT_ADD(dontcare, dontcare);
         CT_ADD(groups, 1);
@@ -627,17 +640,22 @@ static void group_fn(long gi, void *unused)
 static void enumerate(void)
 {
     int cn, a, b, c;
-    /* RSA-2048 bulk */
+    /* RSA-2048: lists of length <= 1, every CN variant */
     for (cn = 0; cn < NCN; cn++)
     {
         add_group(0, cn, 0, 0, 0, 0);
         for (a = 0; a < NPOOL; a++) add_group(0, cn, 1, a, 0, 0);
     }
+    /* RSA-1024 (cheapest signature check): longer lists */
     for (cn = 0; cn < NCN; cn++)
     {
-        if (!thorough && cn > 1) break;              /* quick: length-2 lists with CN none / www.example.com only */
+        if (!thorough && cn > 1) break;              /* quick: length-2 lists with CN none, and with CN www.example.com over the core sub-pool */
         for (a = 0; a < NPOOL; a++)
-            for (b = a + 1; b < NPOOL; b++) add_group(0, cn, 2, a, b, 0);
+            for (b = a + 1; b < NPOOL; b++)
+            {
+                if (!thorough && cn == 1 && !(POOL[a].core && POOL[b].core)) continue;
+                add_group(2, cn, 2, a, b, 0);
+            }
     }
     if (thorough)
     {
@@ -646,15 +664,12 @@ static void enumerate(void)
                 for (b = a + 1; b < NPOOL; b++)
                     for (c = b + 1; c < NPOOL; c++)
                     {
-                        if (POOL[a].core && POOL[b].core && POOL[c].core) add_group(0, cn, 3, a, b, c);
+                        if (POOL[a].core && POOL[b].core && POOL[c].core) add_group(2, cn, 3, a, b, c);
                     }
     }
-    /* P-256 slice: all lists of length <= 1, CN none / www.example.com */
-    for (cn = 0; cn <= 1; cn++)
-    {
-        add_group(1, cn, 0, 0, 0, 0);
-        for (a = 0; a < NPOOL; a++) add_group(1, cn, 1, a, 0, 0);
-    }
+    /* P-256 slice: all lists of length <= 1, no CN, mFlags = 0 combinations only */
+    add_group(1, 0, 0, 0, 0, 0);
+    for (a = 0; a < NPOOL; a++) add_group(1, 0, 1, a, 0, 0);
 }
 
 static int combo_index(int type, unsigned mflags)
@@ -709,7 +724,7 @@ static int do_replay(const char *d)
         fprintf(stderr, "bad nameType/mFlags combination\n");
         return 2;
     }
-    g.key = kc == 'p';
+    g.key = kc == 'p' ? 1 : kc == 's' ? 2 : 0;
     g.cn = (signed char) cn;
     g.n = (signed char) N.n;
     /* the multiset (ascending); o=0: find the ordering index equal to the given order */
@@ -771,7 +786,7 @@ int main(int argc, char **argv)
 {
     mx_cfg_t cfg;
     const char *replay;
-    static char bound[1400], extra[700];
+    static char bound[1400], extra[900];
     int e, rc, core = 0, i;
 
     memset(&cfg, 0, sizeof(cfg));
@@ -791,8 +806,8 @@ int main(int argc, char **argv)
                "rfc822Name/iPAddress but no dNSName. One record per work group (multiset + CN + key type; transitions = evaluations, nontrivial = at least one definite comparison); "
                "every violating evaluation is additionally recorded individually under its stable key; key suffix reach=direct-api-only marks expected names that "
                "matrixSslNewClientSession would refuse (psX509ValidateGeneralName), reach=session-api all others";
-    cfg.assumptions[0] = "clock pinned to 2024-01-01 (certificates valid from -30 d to +365 d); one fixed RSA-2048 and one fixed P-256 sample key (testkeys/) (name matching does not depend on key bytes)";
-    cfg.assumptions[1] = "each certificate is its own trust anchor (CA:TRUE, keyCertSign), parsed twice (subject object, issuer object); authStatus/authFailFlags are reset between evaluations";
+    cfg.assumptions[0] = "clock pinned to 2024-01-01 (certificates valid from -30 d to +365 d); fixed RSA-2048, RSA-1024 and P-256 sample keys (testkeys/) (name matching does not depend on key bytes)";
+    cfg.assumptions[1] = "each certificate is its own trust anchor (CA:TRUE, keyCertSign), parsed twice (subject object, issuer object); authStatus/authFailFlags and the signature octets of the subject object (RSA verification decrypts them in place) are restored between evaluations";
     cfg.assumptions[2] = "heap blocks are pre-filled with 0x5A up to their usable size (malloc interposed in the driver) so that reads of uninitialised bytes or behind an unterminated string are deterministic and replayable; under that fill an unterminated name never compares equal";
     cfg.assumptions[3] = "expected names are C strings (no embedded NUL possible); IPv6 literals are not in the expected-name grammar";
     cfg.assumptions[4] = "the VALIDATE_EXPECTED_GENERAL_NAME path is checked once per expected name (sanity group): refused names give PS_ARG_FAIL, others the raw verdict";
@@ -816,6 +831,8 @@ int main(int argc, char **argv)
         g_key[0] = d2i_AutoPrivateKey(NULL, &kp, RSA2048KEY_SIZE);
         kp = EC256KEY;
         g_key[1] = d2i_AutoPrivateKey(NULL, &kp, EC256KEY_SIZE);
+        kp = RSA1024KEY;
+        g_key[2] = d2i_AutoPrivateKey(NULL, &kp, RSA1024KEY_SIZE);
     }
     if (!g_key[0] || !g_key[1])
     {
@@ -832,11 +849,11 @@ int main(int argc, char **argv)
     snprintf(bound, sizeof(bound),
         "pool of %d SAN entries (dNSName/rfc822Name/iPAddress/URI incl. wildcards, embedded/trailing NUL, control and high-bit bytes, 3/4/16-octet addresses), %d subject-CN variants "
         "(none, exact, other case, wildcard, other, IP literal, e-mail, embedded NUL), %d expected names, %d (nameType, mFlags) combinations (ANY x {0,ci,cn,cn+ci}, HOSTNAME x {0,cn}, "
-        "CN x {0,cn}, SAN_DNS, SAN_EMAIL x {0,ci}, SAN_IP_ADDRESS; cn=ALWAYS_CHECK_SUBJECT_CN, ci=SAN_EMAIL_CASE_INSENSITIVE_LOCAL_PART). RSA-2048 certificates: all SAN lists without "
-        "repetition of length 0..1 x all CN variants; all ordered lists of length 2 x %s; %s. P-256 slice: all lists of length 0..1 x CN {none, www.example.com}. "
+        "CN x {0,cn}, SAN_DNS, SAN_EMAIL x {0,ci}, SAN_IP_ADDRESS; cn=ALWAYS_CHECK_SUBJECT_CN, ci=SAN_EMAIL_CASE_INSENSITIVE_LOCAL_PART). RSA-2048 certificates: all SAN lists of "
+        "length 0..1 x all CN variants. RSA-1024 certificates: all ordered lists of length 2 x %s; %s. P-256 slice: all lists of length 0..1, no CN, only the 6 combinations with mFlags=0. "
         "Every certificate x every expected name x every combination evaluated; lists with a repeated entry are not enumerated",
         NPOOL, NCN, NEXP, NCOMBO,
-        thorough ? "all CN variants" : "CN {none, www.example.com}",
+        thorough ? "all CN variants" : "CN none, plus all ordered lists of length 2 over the core sub-pool (entries flagged core in c05_names.h) x CN www.example.com",
         thorough ? "all ordered lists of length 3 over the core sub-pool (entries flagged core in c05_names.h) x CN {none, www.example.com}" : "no lists of length 3");
     (void) core;
     cfg.bound = bound;
@@ -853,10 +870,10 @@ int main(int argc, char **argv)
     mx_init(&cfg);
     mx_parallel(ngroups + 1, group_fn, NULL);
     snprintf(extra, sizeof(extra),
-        "\"c05\": {\"groups\": %ld, \"groups_completed\": %ld, \"certificates\": %ld, \"certificates_refused_by_parser\": %ld, \"evaluations\": %ld, \"definite_comparisons\": %ld, "
+        "\"c05\": {\"groups\": %ld, \"groups_completed\": %ld, \"certificates\": %ld, \"certificates_refused_by_parser\": %ld, \"evaluations\": %ld, \"matrixValidateCertsExt_calls\": %ld, \"definite_comparisons\": %ld, "
         "\"dont_care\": %ld, \"accept_verdicts\": %ld, \"violating_evaluations_oracle_a\": %ld, \"violating_multiset_cases_oracle_b\": %ld, \"pool\": %d, \"core_pool\": %d, "
         "\"cn_variants\": %d, \"expected_names\": %d, \"expected_names_refused_by_psX509ValidateGeneralName\": %ld, \"combos\": %d}",
-        ngroups + 1, CT->groups, CT->certs, CT->certs_refused, CT->evals, CT->definite, CT->dontcare, CT->accepts, CT->viol_a, CT->viol_b, NPOOL, core, NCN, NEXP, CT->refused_names, NCOMBO);
+        ngroups + 1, CT->groups, CT->certs, CT->certs_refused, CT->evals, CT->libcalls, CT->definite, CT->dontcare, CT->accepts, CT->viol_a, CT->viol_b, NPOOL, core, NCN, NEXP, CT->refused_names, NCOMBO);
     rc = mx_finish(extra);
     return rc;
 }
